@@ -1432,7 +1432,22 @@ class World:
         # interior cells only: whether the ghost cells are carried over, left alone
         # or recomputed eagerly by an edit is the implementation's choice (they are
         # derived state until the next operation that recomputes them)
-        got_i = A.full_array(vent.obj)[(slice(1, -1),) * nd]
+        full_now = A.full_array(vent.obj)
+        if full_now.shape != before.shape:
+            # the storage changed shape (e.g. update_value from a variable on another
+            # mesh re-bound the array instead of raising): certainly not the effect of
+            # the numpy operation
+            det = {"var": vent.name, "how": how, "shape_before": list(before.shape),
+                   "shape_after": list(full_now.shape)}
+            self.flag("C09", "I3", "edit-lost/val_edit:%s" % how, det)
+            if how == "update":
+                self.flag("C12", "I6", "update_value/not-taken-over", det)
+            # the object is no longer a variable on its mesh: it leaves the pool
+            # (later ops that name it become no-ops)
+            self.ents.pop(vent.name, None)
+            self.stats["dropped:storage-shape-changed"] += 1
+            raise Skip("storage shape changed")
+        got_i = full_now[(slice(1, -1),) * nd]
         if not exact(got_i, inner):
             det = {"var": vent.name, "how": how, "maxdiff": maxdiff(got_i, inner)}
             self.flag("C09", "I3", "edit-lost/val_edit:%s" % how, det)
